@@ -748,7 +748,13 @@ class Interp:
         if b.k == "list":
             if name == "copy":
                 return b
-            if name in ("append", "extend", "update", "add", "insert"):
+            if name in ("append", "add", "insert") and args:
+                b.elem = join([b.elem, args[-1]]) if b.elem is not None else args[-1]
+                return V("none")
+            if name in ("extend", "update") and args:
+                src = a0.elem if a0.k in ("list", "dict") else (a0 if a0.k != "raw" else None)
+                if src is not None:
+                    b.elem = join([b.elem, src]) if b.elem is not None else src
                 return V("none")
             if name in ("index", "count"):
                 return raw(b.deps | alld, deg={})
